@@ -10,7 +10,7 @@ import struct as _struct
 import z3
 
 from . import core
-from .containers import BytearrayShim, BytesShim, SymBuf
+from .containers import BytearrayShim, BytesShim, SymBuf, ArrBuf
 from .core import SymBool, SymInt, T
 
 
@@ -90,6 +90,8 @@ def isinstance_shim(o, ci):
         return c in (builtins.int, builtins.bool, object) or c is SymBool
     if builtins.isinstance(o, SymBuf):
         return c in (builtins.bytearray, builtins.bytes, object) or c is SymBuf
+    if builtins.isinstance(o, ArrBuf):
+        return c in (builtins.bytearray, object) or c is ArrBuf
     return builtins.isinstance(o, c)
 
 
